@@ -3745,3 +3745,218 @@ L10B_SIZE_SCORER = dict(
     prims=[("__p.size", "Z.of_nat (length {p})", "Z", {"p": "subset"})])
 L10B_EXTRA = [L10B_SCREEN_CONCAT, L10B_SCREEN_STE, L10B_SIZE_SCORER]
 ALL += L10B_EXTRA
+# ---- the argument-handling glue of the command-line wrappers: cli/argument_parsing.py (str_to_bool, cast_dict_to_type,
+# KVAppendAction.__call__), the statements of each get_args() after parser.parse_args(), introspection.py
+# (vocabulary: end of Model/Cli.v; proofs: Proofs/C18SourceArgs.v, C06SourceArgs.v, C04SourceArgs.v, C03SourceArgs.v).
+# A str = the list of its code points (`str`); dicts keyed by str / annotation objects are `kdict K V` (py2gal); `P` = the record
+# of the string primitives (Cli.pyprims: s.lower(), int(s), float(s), the call of another annotation object on a string).
+_KD_SS = "kdict str str"                # the KEY=VALUE strings of one option
+_KD_SA = "kdict str ann"                # required __init__ argument -> annotation
+_KD_SV = "kdict str (pval F O)"         # the cast parameters
+_ARGS_EQB = {"str": "str_eqb", "ann": "ann_eqb"}
+_ARGS = dict(file="src/batchie/cli/argument_parsing.py", out="SrcCliArgs.v", imports="Model.Cli", eqb=_ARGS_EQB, str_consts="str")
+_FO = [("F", "Type"), ("O", "Type"), ("P", "pyprims F O")]
+
+ARGS_STR_TO_BOOL = dict(
+    _ARGS, func="str_to_bool", name="src_str_to_bool", pyparams=["s"], params=_FO + [("s", "str")], returns="bool", vars={},
+    eqb_membership=True,
+    prims=[("__s.lower()", "p_lower P {s}", "str", {"s": "str"})],
+    raises=[("Could not convert", 22)])
+
+ARGS_CAST_DICT = dict(
+    _ARGS, func="cast_dict_to_type", name="src_cast_dict_to_type", pyparams=["k_v_string", "k_v_types"],
+    params=_FO + [("k_v_string", _KD_SS), ("k_v_types", _KD_SA)], returns=_KD_SV,
+    vars={"converters": "kdict ann callable", "k": "str", "v": "str"},
+    dict_literal_type="kdict ann callable", key_error=25,
+    coerce=[("ann", "callable", "CType {x}")],          # a type object used as a converter is called
+    prims=[("bool", "ABool", "ann"), ("int", "AInt", "ann"), ("float", "AFloat", "ann"), ("str", "AStr", "ann"),     # the builtin type objects
+           ("str_to_bool", "CStrToBool", "callable"),                                                                 # the function above, as a value
+           # the call of a converter on a string: str_to_bool is the TRANSLATED function above; a type object is called (Cli.call_callable)
+           ("__f(__v)", "!call_callable P (src_str_to_bool F O P) {f} {v}", "(pval F O)", {"f": "callable", "v": "str"})])
+
+ARGS_KV_APPEND = dict(
+    _ARGS, cls="KVAppendAction", func="__call__", name="src_kv_append",
+    pyparams=["self", "parser", "args", "values", "option_string"], pydefaults=["None"],
+    # `args` = the namespace SEEN AT the action's destination attribute self.dest: None (argparse's default) or the dict so far
+    params=[("args", "opt " + _KD_SS), ("values", "list str")], returns="opt " + _KD_SS, implicit_return="{args}",
+    vars={"k": "str", "v": "str", "d": _KD_SS},
+    assert_error=20, unpack_error=24, except_tag_lists={"ValueError": [23, 24]}, kdict_or_empty=True,
+    prims=[("len(__l)", "Z.of_nat (length {l})", "Z", {"l": "list str"}),
+           ("__l[0]", "!list_get {l} (0)", "str", {"l": "list str"}),
+           ("__s.split(__sep, __n)", "!str_split {s} {sep} {n}", "list str", {"s": "str", "sep": "str", "n": "Z"}),
+           ("getattr(__a, self.dest)", "{a}", "opt " + _KD_SS, {"a": "opt " + _KD_SS})],       # the attribute the namespace is seen at
+    typed_effects=[("setattr(args, self.dest, __d)", "args'", "Some {d}", {"d": _KD_SS})],
+    raises=[("could not parse argument", 21)])
+ALL += [ARGS_STR_TO_BOOL, ARGS_CAST_DICT, ARGS_KV_APPEND]
+
+# -- the get_args() of the wrappers: parser.parse_args() is the primitive that yields the raw namespace `raw` (a record, Cli.*_ns:
+# the plain results main() reads + the class-valued options' names and KEY=VALUE dicts); the statements after it are translated.
+# `I` = introspection.get_class / get_required_init_args_with_annotations (Cli.introspect); cast_dict_to_type is the TRANSLATED
+# function above.  Then each main() once more, with get_args() = the translated get_args on `raw` and `cls(**params)` =
+# `construct` applied to the two namespace attributes the call site names (checked unwrap of a None class).
+_NS_IMPORTS = "Model.Cli Generated.SrcCli"
+_GA = dict(out="SrcCliArgs.v", imports=_NS_IMPORTS, func="get_args", pyparams=[], eqb=_ARGS_EQB, str_consts="str")
+_CFO = [("Cls", "Type"), ("F", "Type"), ("O", "Type")]
+_GA_PARAMS = _CFO + [("I", "introspect Cls"), ("P", "pyprims F O")]
+_GET_CLASS = {"introspection.get_class": (
+    "!i_get_class I {package_name} {class_name} {base_class}", "opt Cls",
+    [("package_name", "str", None), ("class_name", "str", None), ("base_class", "base_class", None)])}
+_BASES = [("Scorer", "BScorer", "base_class"), ("PlatePolicy", "BPlatePolicy", "base_class"), ("BayesianModel", "BBayesianModel", "base_class"),
+          ("RetrospectivePlateGenerator", "BPlateGenerator", "base_class"),
+          ("InitialRetrospectivePlateGenerator", "BInitialPlateGenerator", "base_class"),
+          ("RetrospectivePlateSmoother", "BPlateSmoother", "base_class")]
+
+
+def _ga_prims(ns):
+    return [("get_parser()", "Handle", "handle"),
+            ("__p.parse_args()", "raw", ns, {"p": "handle"}),
+            ("introspection.get_required_init_args_with_annotations(__c)", "!i_required I {c}", _KD_SA, {"c": "opt Cls"}),
+            ("cast_dict_to_type(__d, __t)", "!src_cast_dict_to_type F O P {d} {t}", _KD_SV, {"d": _KD_SS, "t": _KD_SA})] + _BASES
+
+
+def _ns_fields(ns, table):
+    return {a: (ns, t, g, st) for a, (t, g, st) in table.items()}
+
+
+def _plain_fields(ns, prefix, table):
+    return {a: (ns, t, "%s_%s (%s_plain {obj})" % (prefix, a, prefix), _NOSET) for a, t in table.items()}
+
+
+_CS_NS = "(cs_ns Cls F O)"
+_CS_NS_FIELDS = _ns_fields(_CS_NS, {
+    "scorer": ("str", "cs_scorer {obj}", _NOSET), "scorer_param": ("opt " + _KD_SS, "cs_scorer_param {obj}", _NOSET),
+    "scorer_cls": ("opt Cls", "cs_scorer_cls {obj}", "cs_set_scorer_cls {obj} {val}"),
+    "scorer_params": (_KD_SV, "cs_scorer_params {obj}", "cs_set_scorer_params {obj} {val}")})
+ARGS_GET_ARGS_CS = dict(
+    _GA, file="src/batchie/cli/calculate_scores.py", name="src_cs_get_args", params=_GA_PARAMS + [("raw", _CS_NS)], returns=_CS_NS,
+    vars={"parser": "handle", "args": _CS_NS, "required_args": _KD_SA}, fields=_CS_NS_FIELDS, prims=_ga_prims(_CS_NS), kwcalls=_GET_CLASS)
+
+_SN_NS = "(sn_ns Cls F O)"
+_SN_NS_FIELDS = _ns_fields(_SN_NS, {
+    "policy": ("opt str", "sn_policy (sn_plain {obj})", _NOSET), "policy_param": ("opt " + _KD_SS, "sn_policy_param {obj}", _NOSET),
+    "policy_cls": ("opt Cls", "sn_policy_cls {obj}", "sn_set_policy_cls {obj} {val}"),
+    "policy_params": (_KD_SV, "sn_policy_params {obj}", "sn_set_policy_params {obj} {val}")})
+ARGS_GET_ARGS_SN = dict(
+    _GA, file="src/batchie/cli/select_next_plate.py", name="src_sn_get_args", params=_GA_PARAMS + [("raw", _SN_NS)], returns=_SN_NS,
+    vars={"parser": "handle", "args": _SN_NS, "required_args": _KD_SA}, fields=_SN_NS_FIELDS, prims=_ga_prims(_SN_NS), kwcalls=_GET_CLASS)
+
+_TM_NS = "(tm_ns Cls F O)"
+_TM_NS_FIELDS = _ns_fields(_TM_NS, {
+    "model": ("str", "tm_model {obj}", _NOSET), "model_param": ("opt " + _KD_SS, "tm_model_param {obj}", _NOSET),
+    "model_cls": ("opt Cls", "tm_model_cls {obj}", "tm_set_model_cls {obj} {val}"),
+    "model_params": (_KD_SV, "tm_model_params {obj}", "tm_set_model_params {obj} {val}")})
+ARGS_GET_ARGS_TM = dict(
+    _GA, file="src/batchie/cli/train_model.py", name="src_tm_get_args", params=_GA_PARAMS + [("raw", _TM_NS)], returns=_TM_NS,
+    vars={"parser": "handle", "args": _TM_NS, "cls": "opt Cls", "required_args": _KD_SA}, fields=_TM_NS_FIELDS, prims=_ga_prims(_TM_NS),
+    kwcalls=_GET_CLASS)
+
+_PR_NS = "(pr_ns Cls F O)"
+
+
+def _pr_opt_fields(attr, slot):
+    get, put = "pr_%s {obj}" % slot, "pr_set_%s {obj} " % slot
+    return {attr: ("opt str", "pr_%s (pr_plain {obj})" % attr, _NOSET),
+            attr + "_param": ("opt " + _KD_SS, "po_param (%s)" % get, _NOSET),
+            attr + "_cls": ("opt Cls", "po_cls (%s)" % get, put + "(po_set_cls (%s) {val})" % get),
+            attr + "_params": (_KD_SV, "po_params (%s)" % get, put + "(po_set_params (%s) {val})" % get)}
+
+
+_PR_NS_FIELDS = _ns_fields(_PR_NS, dict(list(_pr_opt_fields("plate_generator", "pg").items())
+                                        + list(_pr_opt_fields("initial_plate_generator", "ig").items())
+                                        + list(_pr_opt_fields("plate_smoother", "ps").items())))
+ARGS_GET_ARGS_PR = dict(
+    _GA, file="src/batchie/cli/prepare_retrospective_simulation.py", name="src_pr_get_args", params=_GA_PARAMS + [("raw", _PR_NS)],
+    returns=_PR_NS, vars={"parser": "handle", "args": _PR_NS, "required_args": _KD_SA}, fields=_PR_NS_FIELDS, prims=_ga_prims(_PR_NS),
+    kwcalls=_GET_CLASS)
+ALL += [ARGS_GET_ARGS_CS, ARGS_GET_ARGS_SN, ARGS_GET_ARGS_TM, ARGS_GET_ARGS_PR]
+
+
+# -- the main() functions again, as whole commands: the same source text as the CLI_* configurations above, but `args` is the
+# namespace get_args() returns (= the TRANSLATED get_args applied to what parse_args yields) and a constructor call `c(**p)` is
+# `construct` on the class and the parameter dict the call site reads from the namespace.
+def _cmd(base, ns, prefix, name, getargs, extra_params, ns_fields, drop, add_prims, **more):
+    cfg = dict(base, out="SrcCliArgs.v", imports=_NS_IMPORTS, name=name)
+    tail = [q for q in base["params"] if q[0] != "argv"]
+    at = [q[0] for q in tail].index("L")
+    cfg["params"] = _GA_PARAMS + tail[:at] + extra_params + tail[at:] + [("raw", ns)]
+    cfg["vars"] = dict(base["vars"], args=ns)
+    plain = {a: t for a, (_o, t, _g, _s) in base["fields"].items()}
+    cfg["fields"] = dict(_plain_fields(ns, prefix, plain), **{a: f for a, f in ns_fields.items() if a.endswith("_cls") or a.endswith("_params")})
+    prims = [q for q in base["prims"] if q[0] not in drop and q[0] != "get_args()" and not q[0].startswith("get_prng_from_seed_argument")]
+    cfg["prims"] = [("get_args()", "!%s Cls F O I P raw" % getargs, ns)] + add_prims + prims
+    cfg.update(more)
+    return cfg
+
+
+def _seed_prim(ns, prefix):
+    return ("get_prng_from_seed_argument(__a)", "!src_get_prng_from_seed_argument mix (%s_seed (%s_plain {a}))" % (prefix, prefix), "gen", {"a": ns})
+
+
+def _construct(fn, ty):
+    return ("__c(**__p)", "!%s {c} {p}" % fn, ty, {"c": "Cls", "p": _KD_SV})
+
+
+_CONSTRUCT_T = "Cls -> list (str * pval F O) -> result "
+ARGS_CMD_CS = _cmd(CLI_CALCULATE_SCORES, _CS_NS, "cs", "src_cli_calculate_scores_cmd", "src_cs_get_args", [("construct", _CONSTRUCT_T + "Sc")],
+                   _CS_NS_FIELDS, ["args.scorer_cls(**args.scorer_params)"], [_construct("construct", "Sc"), _seed_prim(_CS_NS, "cs")])
+ARGS_CMD_SN = _cmd(CLI_SELECT_NEXT_PLATE, _SN_NS, "sn", "src_cli_select_next_plate_cmd", "src_sn_get_args", [("construct", _CONSTRUCT_T + "Po")],
+                   _SN_NS_FIELDS, ["args.policy_cls(**args.policy_params)"], [_construct("construct", "Po"), _seed_prim(_SN_NS, "sn")])
+# train_model: the parameter dict is the namespace attribute itself (no separate `model_params`); the store of the experiment
+# space into it is the library's tm_set_space on that attribute
+_TM_CMD = _cmd(CLI_TRAIN_MODEL, _TM_NS, "tm", "src_cli_train_model_cmd", "src_tm_get_args", [("construct", _CONSTRUCT_T + "Mo")],
+               _TM_NS_FIELDS, ["args.model_cls(**__p)"], [_construct("construct", "Mo")], attr_vars={},
+               assign_effects=[("args.model_params[EXPERIMENT_SPACE] = __e", "args'",
+                                "tm_set_model_params {state} (tm_set_space L (tm_model_params {state}) {e})")])
+_TM_CMD["params"] = [(n, "tm_lib Scr Sub Sp (list (str * pval F O)) Mo Th" if n == "L" else t) for n, t in _TM_CMD["params"] if n not in ("Pa", "model_params")]
+ARGS_CMD_TM = _TM_CMD
+_PR_CMD = _cmd(CLI_PREPARE, _PR_NS, "pr", "src_cli_prepare_cmd", "src_pr_get_args",
+               [("construct_ig", _CONSTRUCT_T + "Ig"), ("construct_pg", _CONSTRUCT_T + "Pg"), ("construct_ps", _CONSTRUCT_T + "Ps")],
+               _PR_NS_FIELDS,
+               ["args.initial_plate_generator_cls(**args.initial_plate_generator_params)",
+                "args.plate_generator_cls(**args.plate_generator_params)", "args.plate_smoother_cls(**args.plate_smoother_params)"],
+               # the attribute's name says which kind of object the class makes (three constructors of different result types)
+               [("__a.initial_plate_generator_cls(**__p)", "!instantiate construct_ig (po_cls (pr_ig {a})) {p}", "Ig", {"a": _PR_NS, "p": _KD_SV}),
+                ("__a.plate_generator_cls(**__p)", "!instantiate construct_pg (po_cls (pr_pg {a})) {p}", "Pg", {"a": _PR_NS, "p": _KD_SV}),
+                ("__a.plate_smoother_cls(**__p)", "!instantiate construct_ps (po_cls (pr_ps {a})) {p}", "Ps", {"a": _PR_NS, "p": _KD_SV}),
+                _seed_prim(_PR_NS, "pr")])
+ARGS_CMD_PR = _PR_CMD
+ALL += [ARGS_CMD_CS, ARGS_CMD_SN, ARGS_CMD_TM, ARGS_CMD_PR]
+# -- introspection.py itself (vocabulary: the pyworld record at the end of Model/Cli.v; proofs: Proofs/C18SourceIntrospect.v).
+# Mod / Obj = module objects / any object a module attribute may hold; `W` = the importlib / pkgutil / inspect primitives.
+_INTRO = dict(file="src/batchie/introspection.py", out="SrcCliArgs.v", imports=_NS_IMPORTS, eqb=_ARGS_EQB, str_consts="str")
+_MOW = [("Mod", "Type"), ("Obj", "Type"), ("W", "pyworld Mod Obj")]
+_TRUTHY = {"Obj": "w_truthy W"}
+ARGS_GET_CLASS = dict(
+    _INTRO, func="get_class", name="src_get_class", pyparams=["package_name", "class_name", "base_class"],
+    params=_MOW + [("package_name", "str"), ("class_name", "str"), ("base_class", "base_class")], returns="opt Obj",
+    vars={"package": "Mod", "module_name": "str", "module": "Mod", "cls": "opt Obj"},
+    loop_return_rewrite=True, implicit_return="None", truthy=_TRUTHY,          # falling off the loop returns None
+    prims=[("importlib.import_module(__n)", "!w_import W {n}", "Mod", {"n": "str"}),
+           # the triples walk_packages yields: only the module name is read
+           ("pkgutil.walk_packages(__p.__path__, __n + '.')", "map (fun n__ => (tt, n__, tt)) (w_walk W {p} {n})", "list (unit * str * unit)",
+            {"p": "Mod", "n": "str"}),
+           ("getattr(__m, __n, None)", "w_getattr W {m} {n}", "opt Obj", {"m": "Mod", "n": "str"}),
+           ("issubclass(__c, __b)", "!w_issubclass W {c} {b}", "bool", {"c": "Obj", "b": "base_class"})],
+    raises=[("is not a subclass of", 31)])
+ARGS_CREATE_INSTANCE = dict(
+    _INTRO, func="create_instance", name="src_create_instance", pyparams=["package_name", "class_name", "base_class", "kwargs"],
+    params=_MOW + [("V", "Type"), ("Inst", "Type"), ("construct", "Obj -> V -> result Inst"), ("package_name", "str"), ("class_name", "str"),
+                   ("base_class", "base_class"), ("kwargs", "V")],
+    returns="Inst", vars={"cls": "opt Obj", "instance": "Inst"}, truthy=_TRUTHY,
+    prims=[("get_class(__p, __n, __b)", "!src_get_class Mod Obj W {p} {n} {b}", "opt Obj", {"p": "str", "n": "str", "b": "base_class"}),
+           ("__c(**__k)", "!construct {c} {k}", "Inst", {"c": "Obj", "k": "V"})],
+    raises=[("was not found in the package", 30)])
+ARGS_REQUIRED = dict(
+    _INTRO, func="get_required_init_args_with_annotations", name="src_get_required_init_args", pyparams=["cls"],
+    params=_MOW + [("cls", "opt Obj")], returns=_KD_SA,
+    vars={"init_signature": "kdict str sigparam", "parameters": "kdict str sigparam", "required_args_with_annotations": _KD_SA,
+          "name": "str", "param": "sigparam", "annotation": "ann"},
+    if_expr=True, coerce=[("none", "ann", "ANone")],       # the literal None as an annotation value
+    prims=[("inspect.isclass(__c)", "opt_isclass W {c}", "bool", {"c": "opt Obj"}),
+           ("inspect.signature(__c.__init__)", "!w_signature W {c}", "kdict str sigparam", {"c": "Obj"}),
+           ("__s.parameters", "{s}", "kdict str sigparam", {"s": "kdict str sigparam"}),        # the signature is its ordered parameter mapping
+           ("__p.default == inspect.Parameter.empty", "sp_no_default {p}", "bool", {"p": "sigparam"}),
+           ("__p.annotation", "sp_annotation {p}", "ann", {"p": "sigparam"}),
+           ("inspect.Parameter.empty", "AEmpty", "ann")],
+    raises=[("The given object is not a class", 29)])
+ALL += [ARGS_GET_CLASS, ARGS_CREATE_INSTANCE, ARGS_REQUIRED]
